@@ -149,6 +149,56 @@ def stringPrefixOnly (mounts : List Path) (cwd p : Path) : Bool :=
   | none => false
   | some (m, _) => !isCompPrefix (comps m) (comps (mountKeyPath cwd p))
 
+/-! ### two-path operations of the virtual OS (`VirtualOS.Rename`, `VirtualOS.Symlink`,
+    os/virtual.go): each of the two path arguments is looked up in the mount table on its
+    own; the operation is forwarded to a filesystem only when both lookups name the SAME
+    mount, and then with the two relative paths of the two lookups. -/
+
+inductive TwoRes where
+  | noMount1                       -- "no such file or directory: <first path>"
+  | noMount2                       -- "no such file or directory: <second path>"
+  | cross                          -- "cannot rename/symlink across filesystems"
+  | forward (m rel1 rel2 : Path)   -- `m.Source.Rename(rel1, rel2)`
+  deriving Repr, DecidableEq
+
+/-- model of `VirtualOS.Rename(p, q)` / `VirtualOS.Symlink(p, q)` (mounts are identified by
+    their targets: the mount table is keyed by target) -/
+def twoPath (mounts : List Path) (cwd p q : Path) : TwoRes :=
+  match findMount mounts cwd p with
+  | none => .noMount1
+  | some (m1, r1) =>
+    match findMount mounts cwd q with
+    | none => .noMount2
+    | some (m2, r2) => if m1 = m2 then .forward m1 r1 r2 else .cross
+
+/-- Spec of a two-path operation: each path belongs to the mount whose mount point is its own
+    longest component-wise prefix; the operation may reach a filesystem only if both paths
+    belong to the same mount, and then it is that mount's. -/
+def specTwoPath (mounts : List Path) (cwd p q : Path) : Option Path :=
+  match specMount mounts cwd p, specMount mounts cwd q with
+  | some a, some b => if a = b then some a else none
+  | _, _ => none
+
+/-- the components handed to the serving filesystem must be the path's own components below
+    the mount point: `comps m ++ comps rel = comps (cleaned path)` -/
+def relFaithful (m rel : Path) (cwd p : Path) : Bool :=
+  comps m ++ comps rel == comps (mountKeyPath cwd p)
+
+/-- NOT the code: the tempting shortcut "both arguments have to live on the same mount anyway"
+    — look up the first path, then only test that the second path lies under THAT mount point.
+    Kept as an executable definition so that `Props` can show that it is wrong exactly on nested
+    mount points (`shortcut_routes_into_nested_mount`). -/
+def twoPathShortcut (mounts : List Path) (cwd p q : Path) : TwoRes :=
+  match findMount mounts cwd p with
+  | none => .noMount1
+  | some (m1, r1) =>
+    let key := mountKeyPath cwd q
+    if key = m1 then .forward m1 r1 [47]
+    else if mountMatches key m1 then
+      let rel := trimPrefix key m1
+      .forward m1 r1 (if rel.isEmpty then [47] else rel)
+    else .cross
+
 /-! ### sessions: lookups interleaved with `Chdir` on one VirtualOS.  `Chdir` stores the
     directory verbatim (os/virtual.go); a lookup consults the mount table with the working
     directory of that moment and leaves no trace. -/
